@@ -22,8 +22,11 @@ namespace Pew.Filters
 
 def mean (l : List Rat) : Rat := l.sum / (l.length : Rat)
 
-/-- population variance (`np.std(...)**2`, ddof = 0) -/
-def popvar (l : List Rat) : Rat := mean (l.map (fun v => (v - mean l) * (v - mean l)))
+/-- population variance (`np.std(...)**2`, ddof = 0): the mean is computed once, then the squared
+deviations from it are averaged -/
+def popvar (l : List Rat) : Rat :=
+  let m := mean l
+  mean (l.map (fun v => (v - m) * (v - m)))
 
 def sort (l : List Rat) : List Rat := l.mergeSort (fun a b => decide (a ≤ b))
 
@@ -396,6 +399,121 @@ def flMean (fl : Rat → Rat) : List Rat → Rat
   | [] => 0
   | a :: r => fl (r.foldl (fun s v => fl (s + v)) a / ((r.length + 1 : Nat) : Rat))
 
+/-! ## float level (3): a rounded mean of arbitrary values
+
+The replacement of a flagged pixel is the mean of the *other* values of its window.  In floating point
+that mean is a tree of rounded additions over those values (any order: pairwise, by rows, left to
+right) and a rounded division by their count; the values of a padded window are themselves such trees
+over real pixels.  `SExpr` is such a computation over the values `v` (a leaf may occur more than once:
+a pad value enters every window row it pads), `eval fl v` its value under the rounding function `fl`,
+`exact v` its value in exact arithmetic, and `exact (v.map absR)` — the same computation on the absolute
+values — the magnitude the rounding error is proportional to: the error of a mean of `m` neighbours is
+measured against the mean of *their* magnitudes, not against the pixel that is being replaced (which is
+not among them) and not against the largest value of the image. -/
+
+inductive SExpr where
+  | leaf (i : Nat) : SExpr
+  | add (a b : SExpr) : SExpr
+  | divn (a : SExpr) (n : Nat) : SExpr
+  deriving Repr
+
+namespace SExpr
+
+def eval (fl : Rat → Rat) (v : List Rat) : SExpr → Rat
+  | .leaf i => v.getD i 0
+  | .add a b => fl (a.eval fl v + b.eval fl v)
+  | .divn a n => fl (a.eval fl v / (n : Rat))
+
+/-- the value in exact arithmetic -/
+def exact (v : List Rat) : SExpr → Rat
+  | .leaf i => v.getD i 0
+  | .add a b => a.exact v + b.exact v
+  | .divn a n => a.exact v / (n : Rat)
+
+def depth : SExpr → Nat
+  | .leaf _ => 0
+  | .add a b => max a.depth b.depth + 1
+  | .divn a _ => a.depth + 1
+
+/-- the leaves from left to right -/
+def leaves : SExpr → List Nat
+  | .leaf i => [i]
+  | .add a b => a.leaves ++ b.leaves
+  | .divn a _ => a.leaves
+
+/-- additions only (a sum in some order) -/
+def sumOnly : SExpr → Bool
+  | .leaf _ => true
+  | .add a b => a.sumOnly && b.sumOnly
+  | .divn _ _ => false
+
+/-- `v[0] + v[1] + … + v[n]` added left to right -/
+def seqSum : Nat → SExpr
+  | 0 => .leaf 0
+  | n + 1 => .add (seqSum n) (.leaf (n + 1))
+
+end SExpr
+
+/-- the image of the absolute values: the mean filter's replacement computed on it is the magnitude
+the rounding error of the replacement is measured against (`c13.filter` returns it as `rabs`) -/
+def abs1 (x : List Rat) : List Rat := x.map absR
+
+def abs2 (x : List (List Rat)) : List (List Rat) := x.map (fun r => r.map absR)
+
+/-- the bound the check applies to a replaced value: `2·E·u·A`, `E` roundings on the longest path,
+`u` the unit roundoff, `A` the mean magnitude of the values averaged (`≥ ((1+u)^E − 1)·A` while
+`2·E·u ≤ 1`, theorem `rounded_mean_any_order`) -/
+def replBound (u : Rat) (E : Nat) (A : Rat) : Rat := 2 * (E : Rat) * u * A
+
+/-! ## decisions a float evaluation takes exactly
+
+"Exactly when it deviates by MORE than the threshold times the spread": a pixel exactly on the boundary is
+kept.  Floating point can only be held to that where it computes the boundary exactly, i.e. where every
+number the evaluation of `|x − mean w| > t · std masked` produces is a number of the format: all partial
+sums of the window and of the neighbours in ANY order (values on a common binary grid, sum of magnitudes
+below `2^p` grid units), the two means, the deviations from the neighbours' mean, their squares and the
+partial sums of those, the variance, its square root (the variance is the square of a number of the
+format) and `t` times it.  Correctly rounded operations return such results unchanged, so every
+implementation that evaluates the definition — whatever its order of summation — decides such a pixel as
+exact arithmetic does.  `c13.filter` reports the condition per pixel (`fexact`); the check then demands
+the exact decision, also for a pixel exactly on the boundary. -/
+
+def dyadic (q : Rat) : Bool := q.den == 2 ^ Nat.log2 q.den
+
+/-- the values lie on the grid `2^-K` (`K` the largest denominator exponent) and the sum of their
+magnitudes is below `2^p` grid units: every partial sum, in any order, is a number of the format -/
+def sumsAnyOrderExact (p : Nat) (l : List Rat) : Bool :=
+  let K := (l.map (fun q => Nat.log2 q.den)).foldl max 0
+  l.all dyadic && decide (K ≤ 900) && decide ((l.map absR).sum * (2 : Rat) ^ K < (2 : Rat) ^ p)
+
+/-- the non-negative rational whose square is `q`, if there is one -/
+def ratSqrt? (q : Rat) : Option Rat :=
+  if q < 0 then none
+  else
+    let n := q.num.toNat
+    let rn := Nat.sqrt n
+    let rd := Nat.sqrt q.den
+    if rn * rn == n && rd * rd == q.den then some ((rn : Rat) / (rd : Rat)) else none
+
+def meanDecisionExact (p : Nat) (emin : Int) (t : Option Rat) (xi : Rat) (w masked : List Rat) : Bool :=
+  -- nested so that the compiled code stops at the first failing condition
+  if !(sumsAnyOrderExact p w && sumsAnyOrderExact p masked) then false
+  else
+    let m := mean w
+    let mm := mean masked
+    if !(isBin p emin m && isBin p emin mm && isBin p emin (xi - m)) then false
+    else
+      let dev := masked.map (fun v => v - mm)
+      if !(dev.all (isBin p emin)) then false
+      else
+        let sq := dev.map (fun v => v * v)
+        if !(sumsAnyOrderExact p sq && isBin p emin (mean sq)) then false
+        else
+          match ratSqrt? (mean sq), t with
+          | some r, some t => isBin p emin r && isBin p emin t && isBin p emin (t * r)
+          | some r, none => isBin p emin r
+          | none, _ => false
+
 /-! ## float level (2): the mean and median filters in binary64, in NumPy's order of evaluation
 
 Lean's `Float` is IEEE binary64 with a software model the kernel can evaluate, so statements about
@@ -498,6 +616,13 @@ def meanCell (x : Float) (h0 h1 : Nat) (w : List (List Float)) : Cell :=
 /-- `np.where(np.abs(x - means) > threshold * masked_stds, masked_means, x)` -/
 def Cell.out (t : Float) (c : Cell) : Float :=
   if Float.abs (c.x - c.m) > t * c.sd then c.mm else c.x
+
+/-- NOT what pewlib computes: the mean of the neighbours derived from the window sum,
+`(Σ window − x) / (n − 1)`.  Equal to `meanCell.mm` in exact arithmetic; in binary64 the neighbours are
+absorbed by a large centre value before it is subtracted again (witness `f64_subtracted_mean_cancels`). -/
+def subtractedMean (x : Float) (w : List (List Float)) : Float :=
+  let n := (w.map List.length).sum
+  (rowsSum (-0.0) w - x) / (n - 1).toFloat
 
 def zip2With {α β γ} (f : α → β → γ) (a : List (List α)) (b : List (List β)) : List (List γ) :=
   List.zipWith (fun r s => List.zipWith f r s) a b
